@@ -32,6 +32,7 @@ import YtkProofs.ResolverNestedConv
 import YtkProofs.ResolverStable
 import YtkProofs.FuncsLemmas
 import YtkProofs.FuncsResolver
+import YtkProofs.GapResolverStr
 
 namespace Ytk.C11
 open Ytk.Resolver
@@ -1162,6 +1163,75 @@ theorem nonvacuous_evalT_cycle :
     The harness compares with an independently written Go recursive-descent reference on the full
     grammar.
 -/
+
+/-! ## Round 7b: STRING level (the lexer), every delimiter triple -/
+
+/-- Rendering the lexed tokens gives the string back — for EVERY delimiter triple (empty,
+    overlapping or equal delimiters included) and EVERY string.  (The driver only checks
+    `unlex d (lex d s) == s` dynamically, field `rt`.) -/
+theorem unlex_lex (d : Delims) (s : List Char) : unlex d (lex d s) = s := unlex_lex' d s
+
+/-- If the prefix STRING does not occur in `s`, no prefix TOKEN is lexed. -/
+theorem lex_no_pre_of_not_infix (d : Delims) (s : List Char) (h : ¬ d.pre <:+: s) : Tok.pre ∉ lex d s :=
+  lex_no_pre' d s h
+
+/-- Resolve(s) == s when s has no prefix — at STRING level, for every configured prefix, suffix
+    and separator `d`, every lookup table, every `norm` and every positive fuel: the run of the
+    driver (`lex d`, `resolveTop`, `unlex d`) on a string in which the prefix string does not
+    occur ends with `ok` and renders to `s` itself. -/
+theorem resolve_string_noPrefix (d : Delims) (n : Nat) (s : List Char) (h : ¬ d.pre <:+: s) :
+    resolveTop norm (n + 1) tbl (lex d s) = .ok (lex d s) ∧
+      ∀ t, resolveTop norm (n + 1) tbl (lex d s) = .ok t → unlex d t = s := by
+  have h1 : resolveTop norm (n + 1) tbl (lex d s) = .ok (lex d s) :=
+    resolve_noPre norm tbl n (lex d s) [] (lex_no_pre_of_not_infix d s h)
+  refine ⟨h1, fun t ht => ?_⟩
+  rw [h1] at ht
+  cases ht
+  exact unlex_lex d s
+
+/-- the hypothesis of `resolve_string_noPrefix` on a string that holds BOTH characters of the
+    two-character prefix `${`, but not next to each other (`a$b{c}:`): the lone `$` and `{` are
+    lexed as plain characters, the suffix and the separator as tokens -/
+theorem nonvacuous_resolve_string_noPrefix :
+    let d : Delims := ⟨['$', '{'], ['}'], [':']⟩
+    let s := ['a', '$', 'b', '{', 'c', '}', ':']
+    ¬ d.pre <:+: s ∧ '$' ∈ s ∧ '{' ∈ s ∧
+      lex d s = [.ch 'a', .ch '$', .ch 'b', .ch '{', .ch 'c', .suf, .sep] ∧
+      resolveTop (relex d) 1 [(lex d ['b'], lex d ['X'])] (lex d s) = .ok (lex d s) := by
+  decide +kernel
+
+/-- Lexing is a homomorphism behind a string `s₁` that lexes to clean tokens (no lone first
+    character of a delimiter; `d.LexOK` = non-empty delimiters with three different first
+    characters): `lex (s₁ ++ s₂) = lex s₁ ++ lex s₂`. -/
+theorem lex_append_of_clean {d : Delims} (hd : d.LexOK) (s₁ s₂ : List Char) (h : Over (CleanTok d) (lex d s₁)) :
+    lex d (s₁ ++ s₂) = lex d s₁ ++ lex d s₂ := lex_append_of_clean' hd s₁ s₂ h
+
+/-- Resolve(s₁ + s₂) = Resolve(s₁) ⊕ Resolve(s₂) at STRING level: `resolve_append_balanced` for
+    the lexed concatenation of two strings, `s₁` lexing to a clean, delimiter-balanced token list. -/
+theorem resolve_string_append_balanced {d : Delims} (hd : d.LexOK) {s₁ s₂ : List Char} {seen : List Toks}
+    {r₁ r₂ : Res} (hc : Over (CleanTok d) (lex d s₁)) (hb : Balanced (lex d s₁))
+    (h₁ : Resolves norm tbl (lex d s₁) seen r₁) (h₂ : Resolves norm tbl (lex d s₂) seen r₂) :
+    Resolves norm tbl (lex d (s₁ ++ s₂)) seen (r₁.seq r₂) := by
+  rw [lex_append_of_clean hd s₁ s₂ hc]
+  exact resolve_append_balanced norm tbl hb h₁ h₂
+
+/-- the cleanliness hypothesis of `lex_append_of_clean` is needed: `"$" ++ "{a}"` — the balanced
+    (prefix-free) `$` glues with the `{` of the second string into a prefix token -/
+theorem lex_append_needs_clean_counterexample :
+    let d : Delims := ⟨['$', '{'], ['}'], [':']⟩
+    d.LexOK ∧ Balanced (lex d ['$']) ∧ ¬ Over (CleanTok d) (lex d ['$']) ∧
+      lex d (['$'] ++ ['{', 'a', '}']) = [.pre, .ch 'a', .suf] ∧
+      lex d ['$'] ++ lex d ['{', 'a', '}'] = [.ch '$', .ch '{', .ch 'a', .suf] := by
+  decide +kernel
+
+/-- the hypotheses of `resolve_string_append_balanced` on `x${a}{` (a `{` that does not follow a
+    `$` is a clean character) -/
+theorem nonvacuous_string_append :
+    let d : Delims := ⟨['$', '{'], ['}'], [':']⟩
+    let s₁ := ['x', '$', '{', 'a', '}', '{']
+    d.LexOK ∧ Over (CleanTok d) (lex d s₁) ∧ Balanced (lex d s₁) ∧
+      lex d s₁ = [.ch 'x', .pre, .ch 'a', .suf, .ch '{'] := by
+  decide +kernel
 
 end Ytk.C11
 
